@@ -14,11 +14,14 @@ META = {
                   "PatchChainInd.tla states the chain order (Sorted, StableAmongEquals, ranks a permutation) as an INDUCTIVE invariant over the same actions with "
                   "arbitrary integer priorities and archive ids, chains of <= 4 entries and histories of any length; Apalache discharges Init => IndInv, "
                   "IndInv => WinnerIsFirst, refutes the tie-goes-to-the-newcomer deviation (quick) and discharges IndInv /\\ Next => IndInv' (thorough). "
-                  "Ptch.tla is a reference semantics of PTCH/COPY/BSD0 (signed seek, strict sizes) model-checked against a closed form. "
+                  "Ptch.tla is a reference semantics of PTCH/COPY/BSD0 (signed seek, strict sizes) model-checked against a closed form; its RLE layer is "
+                  "stated over the whole control-byte space 0x00..0xFF (RunLen, canonical RleEncode, decode o encode = id for one run per control byte and for over-long runs). "
+                  "Contents carry one distinguished id, the content of length zero (EmptyC): an empty file is a version (winner, base, patch result); the deviation "
+                  "'empty = not found' (d4) is refuted on witness chains. "
                   "TLC then enumerates every transition (state x operation) of the chain model and patch plans (shape x mutation); the driver "
                   "replays them on a real wow_mpq::PatchChain over real .mpq files and on apply_patch; TLC validates every recorded answer.",
     "level_note": "Trusted: TLC; SHA-1/MD5 digests computed by the driver as opaque tokens; the driver's PTCH *encoder* (every applied file is "
-                  "re-evaluated from its bytes by Ptch.tla). Histories are bounded (all transitions of the <= 2/3-entry model + random walks); "
+                  "re-evaluated from its bytes by Ptch.tla; Gen_Ptch certifies that the run plans use every RLE control byte, Trace_Ptch reports a non-canonical RLE stream as DRIFT). Histories are bounded (all transitions of the <= 2/3-entry model + random walks); "
                   "archives are V1..V4 (one each) with 4 KiB / 16 KiB sectors, listfile present; patch entries stored raw, single-unit compressed and sectored.",
     "technique": "TLA+ state machine + reference semantics; TLC model checking, Apalache inductive invariant for the chain order, TLC-generated histories / patch plans, TLC trace validation",
     "design_ref": "DESIGN.md section 5, C08",
